@@ -561,7 +561,12 @@ fn check_scan(want_all: &[&MEvent], by_stream: bool, start: u64, dir: IterDirect
             }
             let want_keys: BTreeSet<u64> = want.iter().map(|m| key(m)).collect();
             if let Some(extra) = got_keys.difference(&want_keys).next() {
-                return Some(("reverse-beyond-start", format!("returned event at position {extra} which lies after the start position {start}")));
+                // later siblings of the transaction that contains the start position are a listed
+                // known finding; anything else beyond the start is a different defect
+                let start_txn = want_all.iter().find(|m| key(m) == start).map(|m| m.txn_no);
+                let all_siblings = start_txn.is_some() && got_keys.difference(&want_keys).all(|k| want_all.iter().find(|m| key(m) == *k).map(|m| m.txn_no) == start_txn);
+                let clause = if all_siblings { "reverse-beyond-start-same-transaction" } else { "reverse-beyond-start" };
+                return Some((clause, format!("returned event at position {extra} which lies after the start position {start}")));
             }
             if let Some(missing) = want_keys.difference(&got_keys).next() {
                 return Some(("reverse-missing", format!("event at position {missing} (<= start {start}) never returned; returned {} of {}", got_keys.len(), want_keys.len())));
